@@ -373,7 +373,7 @@ class VarianceMeanCount(object):
 
         res = variance_mean_count(var, mean, count)
 
-        yield _maybe_with_context(res, self._cur_context)
+        yield _maybe_with_context(res, copy.deepcopy(self._cur_context))
 
     def _reset(self):
         r"""Reset sum_sq, sum\_, count and context."""
